@@ -3,7 +3,7 @@
 AbbrText.tla : every balanced payload over the punctuation alphabet (plain characters, nested braces, backslash escapes);
                TLC checks tokenizer-in-text-context machine = TextOf contract; each payload is replayed at seven positions
                where text may appear and the element's content must equal TextOf(payload) byte for byte.
-AbbrWrap.tla : every list of wrap lines over 17 line atoms x 15 abbreviation templates (implicit repeater on elements and
+AbbrWrap.tla : every list of wrap lines over 17 line atoms x 18 abbreviation templates (implicit repeater on elements and
                groups, $# placeholders in attribute and text, no repeater); TLC checks converter loop = loop-free contract;
                each vector is replayed through expand(abbr, {'text': lines}).
 """
@@ -156,8 +156,8 @@ def run(out):
             out.sample({'payload': p, 'text': vecs[p]['t']})
 
     atoms = {"a", " b ", "", "  ", "*c", "$x", "[d]", "a>b", "${1}", "$#", "it$$", "x y", "{z}", ".c", "eBSf", "'q'", "~"}
-    winsts = [('wrap-exhaustive', dict(constants={'MaxLines': 2 if quick else 3, 'LineAtoms': atoms, 'TemplateIdx': set(range(1, 16))})),
-              ('wrap-simulated', dict(constants={'MaxLines': 6, 'LineAtoms': atoms, 'TemplateIdx': set(range(1, 16))},
+    winsts = [('wrap-exhaustive', dict(constants={'MaxLines': 2 if quick else 3, 'LineAtoms': atoms, 'TemplateIdx': set(range(1, 19))})),
+              ('wrap-simulated', dict(constants={'MaxLines': 6, 'LineAtoms': atoms, 'TemplateIdx': set(range(1, 19))},
                                       simulate=40 if quick else 800, depth=7, seed=out.seed))]
     for name, kw in winsts:
         r = common.run_tlc('AbbrWrap', timeout=3000, heap='12g', **kw)
